@@ -4,8 +4,9 @@
 (*                                                                         *)
 (* Code: lena/core/sequence.py (Sequence.run chains el.run generators),    *)
 (* lena/core/source.py, lena/core/adapters.py (Run._call_run, _fc_run),    *)
-(* lena/flow/{iterators,elements,filter}.py, lena/core/split.py (Split as  *)
-(* an element of a sequence).                                              *)
+(* lena/core/lena_sequence.py (elements without data), lena/flow/          *)
+(* {iterators,elements,filter}.py, lena/core/split.py (Split as an element *)
+(* of a sequence).                                                         *)
 (*                                                                         *)
 (* Operational part: one control token moves along the chain.  "need"      *)
 (* travels upstream (a generator is resumed and asks its input), "have" /  *)
@@ -15,6 +16,10 @@
 (* not finished: this is the laziest behaviour the documentation allows    *)
 (* (Count keeps one value of look-ahead, islice consumes up to its stop,   *)
 (* Split reads one block).                                                 *)
+(* The consumer may stop at any moment between two results (Stop: close(), *)
+(* dropping the generator, throwing into it), the input may raise instead  *)
+(* of giving a value (Abort), and a pipeline of elements that keep nothing *)
+(* between runs may be run again on another flow (Rerun).                  *)
 (*                                                                         *)
 (* Declarative part: Sem(prog, xs) is the left-to-right composition of the *)
 (* stages' stream transformations; MinNeed gives the input prefix needed   *)
@@ -25,9 +30,15 @@ EXTENDS FlowSem, Json
 CONSTANTS MaxLen,     \* programs of 0..MaxLen stages
           MaxN,       \* finite flows of length 0..MaxN
           Alphabet,   \* set of stage descriptors
+          Must,       \* programs contain at least one of these stages ({}: no restriction)
           Pairs,      \* subset of BOOLEAN: flows of (data, context) pairs and/or of bare data
           Infinite,   \* TRUE: also an infinite source (value i at position i)
-          MaxOut      \* an infinite run is observed for MaxOut deliveries
+          MaxOut,     \* an infinite run is observed for MaxOut deliveries
+          Vals,       \* "nat": the flow is base, base+1, ...; "special": SpecialFlow of FlowSem
+          Stops,      \* TRUE: the consumer may stop early, the input may raise
+          MaxRuns     \* number of runs of the same pipeline object (1 or 2)
+
+SR == INSTANCE SliceRef      \* Python's list slicing (declarative reference shared with C17)
 
 (***************************************************************************)
 (* Programs and flows.                                                     *)
@@ -35,8 +46,11 @@ CONSTANTS MaxLen,     \* programs of 0..MaxLen stages
 RECURSIVE Progs(_)
 Progs(n) == IF n = 0 THEN {<<>>}
             ELSE LET P == Progs(n - 1) IN P \cup {Append(p, x) : p \in {y \in P : Len(y) = n - 1}, x \in Alphabet}
-FlowOf(n, pairs) == [j \in 1..n |-> Val(j - 1, {}, pairs)]
-HasBad(prog) == \E i \in 1..Len(prog) : prog[i].t = "bad"
+Scenarios == IF Must = {} THEN Progs(MaxLen)
+             ELSE {p \in Progs(MaxLen) : \E i \in 1..Len(p) : p[i] \in Must}
+ValAt(i, b, pr) == IF Vals = "special" THEN SpecialFlow[i + 1] ELSE Val(i + b, {}, pr)
+FlowOf(n, b, pr) == [j \in 1..n |-> ValAt(j - 1, b, pr)]
+HasBad(prog) == \E i \in 1..Len(prog) : HasBadSt(prog[i])
 
 (***************************************************************************)
 (* Operational machine.                                                    *)
@@ -47,27 +61,34 @@ VARIABLES prog, N, pairs,  \* scenario
           loc, q, fin,     \* per stage: local state, output queue, finished
           ctl,             \* control token [at, k, v]
           out, pulls,      \* deliveries and the value of pos at each delivery
-          asked            \* the consumer has asked for a value at least once
-vars == <<prog, N, pairs, built, pos, loc, q, fin, ctl, out, pulls, asked>>
+          asked,           \* the consumer has asked for a value at least once
+          stopped,         \* "no" | "closed" (the consumer stopped) | "raised" (the input raised)
+          run, base, prev  \* number of this run, first value of its flow, how the earlier runs ended
+vars == <<prog, N, pairs, built, pos, loc, q, fin, ctl, out, pulls, asked, stopped, run, base, prev>>
+scen == <<prog, pairs, built>>
+runvars == <<run, base, prev, N>>
 
 n == Len(prog)
-Idle == [at |-> n + 1, k |-> "idle", v |-> Val(0, {}, FALSE)]
-NeedAt(i) == [at |-> i, k |-> "need", v |-> Val(0, {}, FALSE)]
+NoVal == Val(0, {}, FALSE)
+Idle == [at |-> n + 1, k |-> "idle", v |-> NoVal]
+Dead == [at |-> n + 1, k |-> "dead", v |-> NoVal]
+NeedAt(i) == [at |-> i, k |-> "need", v |-> NoVal]
 
-Init == /\ prog \in Progs(MaxLen)
+Init == /\ prog \in Scenarios
         /\ N \in (0..MaxN) \cup (IF Infinite THEN {Inf} ELSE {})
         /\ pairs \in Pairs
         /\ built = IF HasBad(prog) THEN "LenaTypeError" ELSE "ok"
         /\ pos = 0
         /\ loc = [i \in 1..Len(prog) |-> InitLoc(prog[i])]
         /\ q = [i \in 1..Len(prog) |-> <<>>] /\ fin = [i \in 1..Len(prog) |-> FALSE]
-        /\ ctl = [at |-> Len(prog) + 1, k |-> "idle", v |-> Val(0, {}, FALSE)]
+        /\ ctl = [at |-> Len(prog) + 1, k |-> "idle", v |-> NoVal]
         /\ out = <<>> /\ pulls = <<>> /\ asked = FALSE
+        /\ stopped = "no" /\ run = 1 /\ base = 0 /\ prev = <<>>
 
 \* the consumer asks for the next result
 Ask == /\ built = "ok" /\ ctl.k = "idle" /\ Len(out) < MaxOut
        /\ ctl' = NeedAt(n) /\ asked' = TRUE
-       /\ UNCHANGED <<prog, N, pairs, built, pos, loc, q, fin, out, pulls>>
+       /\ UNCHANGED <<scen, runvars, pos, loc, q, fin, out, pulls, stopped>>
 
 StageNeed == /\ ctl.k = "need" /\ ctl.at \in 1..n
              /\ LET i == ctl.at IN
@@ -75,48 +96,72 @@ StageNeed == /\ ctl.k = "need" /\ ctl.at \in 1..n
                 THEN /\ ctl' = [at |-> i + 1, k |-> "have", v |-> Head(q[i])]
                      /\ q' = [q EXCEPT ![i] = Tail(@)] /\ UNCHANGED <<loc, fin>>
                 ELSE IF fin[i] \/ EarlyDone(prog[i], loc[i])
-                THEN /\ ctl' = [at |-> i + 1, k |-> "eof", v |-> Val(0, {}, FALSE)]
+                THEN /\ ctl' = [at |-> i + 1, k |-> "eof", v |-> NoVal]
                      /\ fin' = [fin EXCEPT ![i] = TRUE] /\ UNCHANGED <<q, loc>>
                 ELSE ctl' = NeedAt(i - 1) /\ UNCHANGED <<q, loc, fin>>
-             /\ UNCHANGED <<prog, N, pairs, built, pos, out, pulls, asked>>
+             /\ UNCHANGED <<scen, runvars, pos, out, pulls, asked, stopped>>
 
 StageHave == /\ ctl.k = "have" /\ ctl.at \in 1..n
              /\ LET i == ctl.at
                     r == OnHave(prog[i], loc[i], ctl.v) IN
                 /\ loc' = [loc EXCEPT ![i] = r.loc] /\ q' = [q EXCEPT ![i] = @ \o r.em] /\ ctl' = NeedAt(i)
-             /\ UNCHANGED <<prog, N, pairs, built, pos, fin, out, pulls, asked>>
+             /\ UNCHANGED <<scen, runvars, pos, fin, out, pulls, asked, stopped>>
 
 StageEof == /\ ctl.k = "eof" /\ ctl.at \in 1..n
             /\ LET i == ctl.at IN
                /\ q' = [q EXCEPT ![i] = @ \o OnEof(prog[i], loc[i])]
                /\ fin' = [fin EXCEPT ![i] = TRUE] /\ ctl' = NeedAt(i)
-            /\ UNCHANGED <<prog, N, pairs, built, pos, loc, out, pulls, asked>>
+            /\ UNCHANGED <<scen, runvars, pos, loc, out, pulls, asked, stopped>>
 
 Source == /\ ctl.k = "need" /\ ctl.at = 0
-          /\ IF pos < N THEN pos' = pos + 1 /\ ctl' = [at |-> 1, k |-> "have", v |-> Val(pos, {}, pairs)]
-             ELSE pos' = pos /\ ctl' = [at |-> 1, k |-> "eof", v |-> Val(0, {}, FALSE)]
-          /\ UNCHANGED <<prog, N, pairs, built, loc, q, fin, out, pulls, asked>>
+          /\ IF pos < N THEN pos' = pos + 1 /\ ctl' = [at |-> 1, k |-> "have", v |-> ValAt(pos, base, pairs)]
+             ELSE pos' = pos /\ ctl' = [at |-> 1, k |-> "eof", v |-> NoVal]
+          /\ UNCHANGED <<scen, runvars, loc, q, fin, out, pulls, asked, stopped>>
 
 Deliver == /\ ctl.at = n + 1 /\ ctl.k = "have"
            /\ out' = Append(out, ctl.v) /\ pulls' = Append(pulls, pos) /\ ctl' = Idle
-           /\ UNCHANGED <<prog, N, pairs, built, pos, loc, q, fin, asked>>
+           /\ UNCHANGED <<scen, runvars, pos, loc, q, fin, asked, stopped>>
 
-Next == Ask \/ StageNeed \/ StageHave \/ StageEof \/ Source \/ Deliver
-Spec == Init /\ [][Next]_vars
-FairSpec == Spec /\ WF_vars(Next)
+\* the consumer stops between two results: close(), dropping the last reference, throw(); nothing runs afterwards
+Stop == /\ Stops /\ built = "ok" /\ ctl.k = "idle" /\ stopped = "no"
+        /\ stopped' = "closed" /\ ctl' = Dead
+        /\ UNCHANGED <<scen, runvars, pos, loc, q, fin, out, pulls, asked>>
+
+\* the input raises instead of giving its next value: the exception ends every generator of the chain
+Abort == /\ Stops /\ ctl.k = "need" /\ ctl.at = 0 /\ pos < N /\ N # Inf
+         /\ stopped' = "raised" /\ ctl' = Dead
+         /\ UNCHANGED <<scen, runvars, pos, loc, q, fin, out, pulls, asked>>
 
 Exhausted == ctl.at = n + 1 /\ ctl.k = "eof"
 Truncated == ctl.k = "idle" /\ Len(out) = MaxOut
-Done == built # "ok" \/ Exhausted \/ Truncated
+AllReusable == \A i \in 1..n : Reusable(prog[i])
+
+\* the same pipeline object is run again, on another flow (elements that keep nothing between runs)
+Rerun == /\ run < MaxRuns /\ built = "ok" /\ N # Inf /\ AllReusable
+         /\ Exhausted \/ stopped # "no"
+         /\ prev' = Append(prev, [n |-> N, taken |-> Len(out), pulled |-> pos,
+                                  how |-> IF stopped = "no" THEN "exhausted" ELSE stopped])
+         /\ run' = run + 1 /\ base' = base + 1 /\ N' = IF N < MaxN THEN N + 1 ELSE N - 1
+         /\ pos' = 0 /\ loc' = [i \in 1..n |-> InitLoc(prog[i])]
+         /\ q' = [i \in 1..n |-> <<>>] /\ fin' = [i \in 1..n |-> FALSE]
+         /\ ctl' = Idle /\ out' = <<>> /\ pulls' = <<>> /\ asked' = FALSE /\ stopped' = "no"
+         /\ UNCHANGED scen
+
+Next == Ask \/ StageNeed \/ StageHave \/ StageEof \/ Source \/ Deliver \/ Stop \/ Abort \/ Rerun
+Spec == Init /\ [][Next]_vars
+FairSpec == Spec /\ WF_vars(Next)
+
+Done == built # "ok" \/ Exhausted \/ Truncated \/ stopped # "no"
 
 (***************************************************************************)
 (* Properties.                                                             *)
 (***************************************************************************)
-xs == FlowOf(IF N = Inf THEN MaxOut * 4 + 8 ELSE N, pairs)   \* long enough prefix of an infinite flow
+xs == FlowOf(IF N = Inf THEN MaxOut * 4 + 8 ELSE N, base, pairs)   \* long enough prefix of an infinite flow
+AtRest == ctl.k \in {"idle", "dead"} \/ Exhausted     \* out and pulls change only on the way into such a state
 
-\* C01: the chain computes the left-to-right composition
+\* C01: the chain computes the left-to-right composition (in every run of the same object)
 OpEqDen == (built = "ok" /\ Exhausted) => out = Sem(prog, xs)
-OutIsPrefix == built = "ok" => LET ref == Sem(prog, xs) IN
+OutIsPrefix == (built = "ok" /\ AtRest) => LET ref == Sem(prog, xs) IN
                   Len(out) <= Len(ref) /\ out = SubSeq(ref, 1, Len(out))
 EmptyIsIdentity == (prog = <<>> /\ Exhausted) => out = xs
 \* C01: ill-typed arguments are rejected at construction: no run state ever exists
@@ -124,46 +169,100 @@ BadRejectedAtBuild == HasBad(prog) => (built = "LenaTypeError" /\ ~asked /\ pos 
 \* regrouping into nested Sequences: Sem is a fold, so every split point gives the same result
 Regroup == (built = "ok" /\ Exhausted) =>
               \A k \in 0..n : Sem(SubSeq(prog, k + 1, n), Sem(SubSeq(prog, 1, k), xs)) = out
+\* an element without data is invisible
+HasData(st) == st.t # "nodata"
+NoDataInvisible == (built = "ok" /\ Exhausted) => out = Sem(SelectSeq(prog, HasData), xs)
+\* the Slice stages compute Python's slice (reference of C17), whatever the sign pattern
+DataOf(vs) == [k \in 1..Len(vs) |-> vs[k].d - base]
+SliceIsPySlice == (built = "ok" /\ Exhausted /\ n = 1 /\ Vals = "nat") =>
+   LET st == prog[1] IN
+   /\ st.t \in {"slice", "nslice"} => DataOf(out) = SR!PySlice(N, st.a, st.b, st.s)
+   /\ st.t = "lagk" => DataOf(out) = SR!PySlice(N, None, -st.k, 1)
+   /\ st.t = "lastk" => DataOf(out) = SR!PySlice(N, -st.k, None, 1)
 
 \* C02: nothing happens before the consumer asks
 NoWorkBeforeDemand == ~asked => pos = 0 /\ out = <<>>
 \* C02: the input is pulled only when every stage has nothing left to hand on
 PullOnlyWhenDrained == (ctl.at = 0 /\ ctl.k = "need") => \A i \in 1..n : q[i] = <<>>
 \* C02: at the j-th delivery exactly the needed prefix has been pulled
-LazyEqDen == \A j \in 1..Len(pulls) : pulls[j] = MinNeed(prog, xs, j)
-\* C02: a Split stage never holds more than bufsize unprocessed values; a negative stop lags by exactly k
+LazyEqDen == AtRest => \A j \in 1..Len(pulls) : pulls[j] = MinNeed(prog, xs, j)
+\* C02: a Split stage never holds more than bufsize unprocessed values; a negative stop lags by exactly |stop|;
+\*      a negative-index Slice holds at most the |index| values it documents
 Buffers == \A i \in 1..n :
-             /\ prog[i].t = "split" => Len(loc[i].buf) < prog[i].bs
+             /\ (prog[i].t = "split" /\ prog[i].bs # None) => Len(loc[i].buf) < prog[i].bs
              /\ prog[i].t = "lagk" => /\ Len(loc[i].dq) <= prog[i].k
                                       /\ loc[i].put = (IF loc[i].got > prog[i].k THEN loc[i].got - prog[i].k ELSE 0)
              /\ prog[i].t = "lastk" => Len(loc[i].dq) <= prog[i].k
+             /\ prog[i].t = "nslice" =>
+                  /\ Len(loc[i].dq) <= Retention(prog[i])
+                  /\ NsBranch(prog[i]) \in {"A", "B"} =>
+                       LET skip == IF NsBranch(prog[i]) = "B" THEN prog[i].a ELSE 0
+                           lag == skip - prog[i].b IN
+                       loc[i].ny = (IF loc[i].got > lag THEN loc[i].got - lag ELSE 0)
+\* C02: once the consumer has stopped (or the input has raised) nothing is pulled any more in that run
+NoPullAfterStop == [][(stopped # "no" /\ run' = run) => pos' = pos]_vars
 \* C02 (liveness, FairSpec): a finite Slice after productive stages terminates on an infinite source
 Terminates == <>Done
 
 (***************************************************************************)
 (* Export.                                                                 *)
 (***************************************************************************)
-JV(v) == [d |-> v.d, c |-> v.c, h |-> v.h]
-Emitted == Done => PrintT(ToJson([prog |-> prog, n |-> N, pairs |-> pairs, built |-> built,
-                                  out |-> out, pulls |-> pulls, endpos |-> pos,
-                                  exhausted |-> Exhausted]))
+Emitted == (Done /\ stopped = "no") =>
+              PrintT(ToJson([prog |-> prog, n |-> N, pairs |-> pairs, built |-> built,
+                             out |-> out, pulls |-> pulls, endpos |-> pos,
+                             exhausted |-> Exhausted, base |-> base, prev |-> prev, vals |-> Vals]))
 
 (***************************************************************************)
 (* Alphabets used by the model-checking and export configurations.         *)
 (***************************************************************************)
+\* ---- C01 ----
 AlphaC01 == {Map("inc"), Map("tag"), Map("var"), Map("varattr"), Filter("even"), Filter("none"),
              Slice(1, 3, 1), Slice(0, None, 2), LagK(1), LastK(2), Count, RunIf("even", "inc"),
-             Reverse, End, Sum, Last, SplitSt(<<Map("inc"), Sum>>, 2), SplitSt(<<SeqSum("dbl"), Filter("even")>>, 2),
-             Bad("int"), Bad("str"), Bad("obj"), Bad("runnone")}
+             Reverse, End, Sum, Last, SplitSt(<<Map("inc"), Sum>>, 2), SplitSt(<<SeqSum("dbl"), Filter("even")>>, 2)}
+\* neighbours for the stage kinds below
+CtxC01 == {Map("inc"), Filter("even"), Slice(1, 3, 1), Count, Sum, End}
+\* elements without data, callables of every kind, an accumulator with a data attribute named run, negative
+\* Slices in every sign pattern, Split: empty, bufsize None / 1 / 1000, tuple and Sequence branches, nested Split
+ExtC01 == {NoData, Map("cls"), Map("meth"), Map("part"), Map("print"), LastAttr,
+           NSlice(1, -1, 1), NSlice(None, -2, 2), NSlice(-3, -1, 1), NSlice(-2, 1, 1), NSlice(-3, None, 2),
+           SplitSt(<<>>, 2), SplitSt(<<Map("inc"), FcSum("dbl")>>, None), SplitSt(<<Filter("even")>>, 1),
+           SplitSt(<<Map("dbl")>>, 1000),
+           SplitSt(<<SeqBr(<<Filter("even"), Map("inc")>>), SeqBr(<<SplitSt(<<Map("dbl"), Map("inc")>>, 1)>>)>>, 3),
+           SplitSt(<<SeqBr(<<Slice(0, 1, 1)>>), Map("inc")>>, 2)}
+AlphaC01Ext == ExtC01 \cup CtxC01
+\* arguments that cannot be converted to an element: also values that look like nothing, objects with half of an
+\* interface, arguments nested in a Split or a RunIf
+BadC01 == {Bad("int"), Bad("str"), Bad("obj"), Bad("runnone"), Bad("rundata"), Bad("none"), Bad("zero"),
+           Bad("estr"), Bad("edict"), Bad("elist"), Bad("false"), Bad("fillonly"), Bad("fillattr"),
+           Bad("fillreq"), Bad("float"), SplitSt(<<Map("inc"), Bad("int")>>, 2), SplitSt(<<Bad("none")>>, 2),
+           RunIf("even", "bad")}
+AlphaC01Bad == BadC01 \cup {Map("inc"), Count, Sum, End, NoData}
 \* callables that yield None, followed by elements that count, drop, delay or store values
 AlphaNul == {Map("nul"), Map("inc"), Filter("even"), Slice(1, 3, 1), LagK(1), LastK(2), Count,
              RunIf("even", "nul"), Reverse, Last, SplitSt(<<Map("nul"), Filter("even")>>, 2)}
+\* flows of values that look like nothing (None, False, "", {}, [], (), 0; bare and in pairs)
+AlphaVals == {Map("id"), Map("tag"), Map("print"), Filter("all"), Filter("even"), Slice(1, 4, 2), LagK(1), LastK(2),
+              NSlice(1, -1, 1), Count, RunIf("even", "tag"), Reverse, Last, NoData,
+              SplitSt(<<Map("id"), Filter("even")>>, 2), SplitSt(<<>>, 2)}
+\* pipelines of elements that keep nothing between runs: run again after a complete, an abandoned or a failed run
+AlphaRerun == {Map("inc"), Filter("even"), Slice(1, 3, 1), Slice(0, 2, 1), NSlice(None, -1, 1), NSlice(-2, None, 1),
+               RunIf("even", "inc"), Reverse, End, NoData, SplitSt(<<Map("inc"), Filter("even")>>, 2),
+               SplitSt(<<SeqBr(<<Slice(0, 1, 1)>>)>>, 2)}
 AlphaC01Small == {Map("inc"), Map("tag"), Filter("even"), Slice(1, 3, 1), LagK(1), Count,
                   RunIf("even", "inc"), Reverse, Sum, SplitSt(<<Map("inc"), Sum>>, 2), Bad("int")}
+\* ---- C02 ----
 AlphaC02 == {Map("inc"), Map("id"), Map("var"), Map("upd"), Map("mkfn"), Filter("even"), Filter("lt2"),
              Slice(0, 2, 1), Slice(1, None, 2), Slice(0, 3, 2), LagK(1), LagK(2), Count,
              RunIf("even", "inc"), RunIf("even", "drop"),
              SplitSt(<<Map("inc"), Filter("even")>>, 2), SplitSt(<<Map("dbl")>>, 3)}
+CtxC02 == {Map("inc"), Filter("even"), Slice(0, 2, 1), Count, RunIf("even", "drop")}
+ExtC02 == {Map("print"), NoData, NSlice(1, -1, 1), NSlice(None, -2, 2), NSlice(0, -1, 3), NSlice(-2, 3, 1),
+           NSlice(-1, -2, 1), NSlice(-3, -1, 2), NSlice(-2, None, 1),
+           SplitSt(<<>>, 2), SplitSt(<<Map("inc")>>, None), SplitSt(<<Map("inc")>>, 1000),
+           SplitSt(<<Map("inc"), Filter("even")>>, 1),
+           SplitSt(<<SeqBr(<<Filter("even"), Map("inc")>>), SeqBr(<<SplitSt(<<Map("dbl"), Map("inc")>>, 1)>>)>>, 3),
+           SplitSt(<<SeqBr(<<Slice(0, 1, 1)>>)>>, 2)}
+AlphaC02Ext == ExtC02 \cup CtxC02
 AlphaC02Small == {Map("inc"), Map("var"), Filter("even"), Slice(0, 2, 1), Slice(0, 3, 2), LagK(1), Count,
                   RunIf("even", "drop"), SplitSt(<<Map("inc"), Filter("even")>>, 2)}
 \* productive stages followed by a finite Slice: must terminate on an infinite source
@@ -174,4 +273,6 @@ TerminatesIfSliced == HasFiniteSlice => <>Done
 Bounded == pos <= MaxOut * 4 + 8
 Both == {TRUE, FALSE}
 OnlyPairs == {TRUE}
+OnlyBare == {FALSE}
+NoMust == {}
 =============================================================================
